@@ -37,6 +37,7 @@ type Ev struct {
 	Kind    string            `json:"kind"`               // write | crash | restart
 	Files   map[string]string `json:"files,omitempty"`    // name -> hex(bytes)
 	CrashAt int               `json:"crash_at,omitempty"` // hook invocation (0-based) at which the Write is killed
+	Kill    bool              `json:"kill,omitempty"`     // crash = real process death: the Writes of this Dir run in a child process that SIGKILLs itself at the hook (otherwise: panic from the hook, recovered at the call boundary)
 }
 
 type RawOp struct {
@@ -84,6 +85,7 @@ type world struct {
 	d        *dir.Dir
 	hasPrev  bool // live Dir completed a Write before
 	evIdx    int
+	shift    int // model events inserted by the harness (restart after a child that exited normally)
 	res      *lib.Result
 	log      logger.Logger
 	readerOb int
@@ -287,6 +289,8 @@ func sameMap(a, b map[string][]byte) bool {
 
 type callResult struct {
 	err      error
+	errName  string // canonical errno name ("nil" = success); filled for in-process and child calls
+	errText  string
 	crashed  bool
 	panicVal any
 	timeout  bool
@@ -311,7 +315,7 @@ func (w *world) callWrite(files map[string][]byte, crashAt int) callResult {
 			if len(args) > 1 {
 				if nd, ok := args[1].(string); ok {
 					name := filepath.Base(nd)
-					w.verIdx[name] = evIdx
+					w.verIdx[name] = evIdx + w.shift
 					if m := verRe.FindStringSubmatch(name); m != nil {
 						st, _ := strconv.ParseInt(m[1], 10, 64)
 						w.stamps = append(w.stamps, st)
@@ -363,6 +367,10 @@ func (w *world) callWrite(files map[string][]byte, crashAt int) callResult {
 	case <-time.After(30 * time.Second):
 		cr.timeout = true
 	}
+	cr.errName = errName(cr.err)
+	if cr.err != nil {
+		cr.errText = cr.err.Error()
+	}
 	return cr
 }
 
@@ -403,6 +411,12 @@ func parseAnswer(s string) map[string]string {
 }
 
 func (w *world) compare(drv *lib.Drv, line, implErr, what string) {
+	w.compareObs(drv, line, implErr, what, true)
+}
+
+// compareObs advances the model by one event; with observe=false (the real tree is not observable
+// now: the event happened inside a child process that went on) only the error is compared.
+func (w *world) compareObs(drv *lib.Drv, line, implErr, what string, observe bool) {
 	if drv == nil {
 		return
 	}
@@ -412,6 +426,12 @@ func (w *world) compare(drv *lib.Drv, line, implErr, what string) {
 		return
 	}
 	m := parseAnswer(ans)
+	if !observe {
+		if m["err"] != implErr {
+			w.res.Disagree("C18/"+what+"/err", map[string]any{"case": w.c, "event": w.evIdx, "line": line}, "err="+m["err"], "err="+implErr)
+		}
+		return
+	}
 	tgt, _ := w.observeTarget()
 	impl := map[string]string{"err": implErr, "tree": w.scan(), "target": tgt, "vers": w.versions()}
 	for _, k := range []string{"err", "tree", "target", "vers"} {
@@ -564,8 +584,20 @@ func runCase(c Case, drv *lib.Drv, res *lib.Result, work string, n int) {
 		stopReader = w.startReader()
 	}
 	nontrivial := false
+	skipTo := 0
 	for i, ev := range c.Events {
+		if i < skipTo {
+			continue
+		}
 		w.evIdx = i
+		// a run of Writes by one fresh Dir that ends in a real process death: done by a child
+		if j := killSegment(c.Events, i); j >= 0 && w.d == nil {
+			if !w.childSegment(drv, i, j, &nontrivial) {
+				return
+			}
+			skipTo = j + 1
+			continue
+		}
 		res.Hit("event." + ev.Kind)
 		files := decodeFiles(ev.Files)
 		switch ev.Kind {
@@ -596,44 +628,9 @@ func runCase(c Case, drv *lib.Drv, res *lib.Result, work string, n int) {
 			crashAt = ev.CrashAt
 		}
 		cr := w.callWrite(files, crashAt)
-		switch {
-		case cr.timeout:
-			res.Violate("write-hangs", fmt.Sprintf("Write #%d did not return within 30s", i), c)
-			return
-		case cr.panicVal != nil:
-			res.Violate("write-panics", fmt.Sprintf("Write #%d panicked: %v", i, cr.panicVal), c)
+		if !w.afterCall(drv, i, files, cr, true, &nontrivial) {
 			return
 		}
-		if len(w.stamps) >= 2 && w.stamps[len(w.stamps)-1] <= w.stamps[len(w.stamps)-2] {
-			res.Violate("version-stamp-not-increasing",
-				fmt.Sprintf("Write #%d got UnixNano stamp %d after %d: version directory names are not fresh (model assumption broken)",
-					i, w.stamps[len(w.stamps)-1], w.stamps[len(w.stamps)-2]), c)
-		}
-		total := len(files) + 5
-		if w.hasPrev {
-			total++
-		}
-		if cr.crashed {
-			res.Hit(fmt.Sprintf("crash.afterHook%d", cr.hookIDs[len(cr.hookIDs)-1]))
-			if cr.opsDone > 0 && cr.opsDone < total {
-				nontrivial = true
-			}
-			w.d, w.hasPrev, w.pure = nil, false, false
-			if !c.BadName {
-				w.compare(drv, fmt.Sprintf("crash k=%d files=%s", cr.opsDone, filesArg(cr.written, files)), "nil", "crash")
-			}
-			w.monitorReader(fmt.Sprintf("after crash of write #%d (%d fs operations done)", i, cr.opsDone))
-		} else {
-			res.Hit("write.err." + errName(cr.err))
-			if cr.err == nil {
-				w.hasPrev = true
-			}
-			if !c.BadName {
-				w.compare(drv, "write files="+filesArg(cr.written, files), errName(cr.err), "write")
-			}
-			w.monitorAfterWrite(i, files, cr)
-		}
-		res.Count("", false)
 	}
 	if stopReader != nil {
 		stopReader()
@@ -646,6 +643,60 @@ func runCase(c Case, drv *lib.Drv, res *lib.Result, work string, n int) {
 	if nontrivial {
 		res.Sample(c)
 	}
+}
+
+// afterCall judges one finished/killed Write: model comparison and monitors. observe=false: the
+// call happened earlier inside a child process, only the model is advanced (error compared).
+func (w *world) afterCall(drv *lib.Drv, i int, files map[string][]byte, cr callResult, observe bool, nontrivial *bool) bool {
+	c, res := w.c, w.res
+	w.evIdx = i
+	switch {
+	case cr.timeout:
+		res.Violate("write-hangs", fmt.Sprintf("Write #%d did not return within 30s", i), c)
+		return false
+	case cr.panicVal != nil:
+		res.Violate("write-panics", fmt.Sprintf("Write #%d panicked: %v", i, cr.panicVal), c)
+		return false
+	}
+	if len(w.stamps) >= 2 && w.stamps[len(w.stamps)-1] <= w.stamps[len(w.stamps)-2] {
+		res.Violate("version-stamp-not-increasing",
+			fmt.Sprintf("Write #%d got UnixNano stamp %d after %d: version directory names are not fresh (model assumption broken)",
+				i, w.stamps[len(w.stamps)-1], w.stamps[len(w.stamps)-2]), c)
+	}
+	total := len(files) + 5
+	if w.hasPrev {
+		total++
+	}
+	if cr.crashed {
+		if len(cr.hookIDs) > 0 {
+			res.Hit(fmt.Sprintf("crash.afterHook%d", cr.hookIDs[len(cr.hookIDs)-1]))
+		}
+		if cr.opsDone > 0 && cr.opsDone < total {
+			*nontrivial = true
+		}
+		w.d, w.hasPrev, w.pure = nil, false, false
+		if !c.BadName {
+			w.compareObs(drv, fmt.Sprintf("crash k=%d files=%s", cr.opsDone, filesArg(cr.written, files)), "nil", "crash", observe)
+		}
+		if observe {
+			w.monitorReader(fmt.Sprintf("after crash of write #%d (%d fs operations done)", i, cr.opsDone))
+		}
+	} else {
+		res.Hit("write.err." + cr.errName)
+		if cr.errName == "nil" {
+			w.hasPrev = true
+		}
+		if !c.BadName {
+			w.compareObs(drv, "write files="+filesArg(cr.written, files), cr.errName, "write", observe)
+		}
+		if observe {
+			w.monitorAfterWrite(i, files, cr)
+		} else if cr.errName != "nil" && !c.Foreign && !c.BadName {
+			w.monitorAfterWrite(i, files, cr) // a failed Write is a finding whether or not the tree is observable
+		}
+	}
+	res.Count("", false)
+	return true
 }
 
 func overlapping(evs []Ev) bool {
@@ -666,6 +717,10 @@ func overlapping(evs []Ev) bool {
 // ---------- main ----------
 
 func main() {
+	if len(os.Args) == 3 && os.Args[1] == "--child-write" {
+		childMain(os.Args[2])
+		return
+	}
 	fl := lib.ParseFlags()
 	res := lib.NewResult("a history is non-trivial if a Write in it is killed strictly inside its file-system steps (0 < done < all) or two Writes of it share a file name; raw file-system operation cases count as evaluations only")
 	work := fl.Work
